@@ -19,9 +19,10 @@ class EvDomain(Domain):
 
     def resolve_call(self, st, call, walker):
         r = walker.default_resolve(st, call)
-        if r is None or r[0].name not in self.inline:
-            return None
-        return r
+        if r is not None and r[0].name in self.inline:
+            return r
+        # private helpers extracted from the dispatcher's methods
+        return walker.resolve_helper(st, call, skip={'_remove_weak_handler'})
 
     def resolve_setter(self, st, target, walker):
         return None
@@ -34,6 +35,67 @@ class EvDomain(Domain):
         if ev.kind != 'call' or ev.func is not None:
             return False
         return is_delivery(ev) is not None
+
+
+def beta_reduce(program, cls, node, depth=3):
+    """Replace calls of private single-`return` helpers (self._h(..),
+    Class._h(..), module-level _h(..)) inside an expression by the helper's
+    returned expression with the parameters substituted."""
+    import copy
+    from dlint.model import strip_docstring
+
+    def body_expr(f):
+        b = [x for x in strip_docstring(f.node.body)
+             if not isinstance(x, ast.Assert)]
+        if len(b) == 1 and isinstance(b[0], ast.Return) and b[0].value \
+                is not None:
+            return b[0].value
+        return None
+
+    class T(ast.NodeTransformer):
+        def visit_Call(self, n):
+            n = self.generic_visit(n)
+            f = None
+            skip_self = False
+            if isinstance(n.func, ast.Attribute) and isinstance(
+                    n.func.value, ast.Name) and n.func.attr.startswith('_') \
+                    and not n.func.attr.startswith('__'):
+                owner = cls if n.func.value.id == 'self' else None
+                if owner is None:
+                    try:
+                        owner = program.cls(n.func.value.id)
+                    except AnalysisError:
+                        owner = None
+                if owner is not None:
+                    f = program.resolve_method(owner, n.func.attr)
+                    if f is not None:
+                        static = any(dotted(d) == 'staticmethod'
+                                     for d in f.node.decorator_list)
+                        skip_self = not static
+            elif isinstance(n.func, ast.Name) and n.func.id.startswith('_'):
+                r = program.lookup(cls.module, n.func.id)
+                if r and r[0] == 'func':
+                    f = r[1]
+            if f is None or n.keywords:
+                return n
+            e = body_expr(f)
+            if e is None:
+                return n
+            params = [a.arg for a in f.node.args.args]
+            if skip_self:
+                params = params[1:]
+            if len(params) != len(n.args):
+                return n
+            m = dict(zip(params, n.args))
+
+            class S(ast.NodeTransformer):
+                def visit_Name(self, x):
+                    return copy.deepcopy(m[x.id]) if x.id in m else x
+            return S().visit(copy.deepcopy(e))
+    out = copy.deepcopy(node)
+    for _ in range(depth):
+        out = T().visit(out)
+    return ast.fix_missing_locations(out)
 
 
 def is_delivery(ev):
